@@ -1,8 +1,13 @@
-import json, os, subprocess
+import json, os, subprocess, sys
+sys.path.insert(0, os.path.dirname(os.path.dirname(os.path.abspath(__file__))))
+from verifcore import blame
 
 SPEC = {
-    "lean_modules": ["SemaModel.C02.Props", "SemaModel.Compose.Props", "SemaModel.Compose.RankProps", "SemaModel.C02.Tie", "SemaModel.Compose.AcceptProps", "SemaModel.Compose.AcceptRank"],
+    "lean_modules": ["SemaModel.C02.Props", "SemaModel.Compose.Props", "SemaModel.Compose.RankProps", "SemaModel.C02.Tie", "SemaModel.Compose.AcceptProps", "SemaModel.Compose.AcceptRank", "SemaModel.C02.Pins"],
     "lean_dirs": ["SemaModel/C02", "SemaModel/Compose"],
+    # modules of this list outside SemaModel/C02 are the COMPOSITION (C01 + C02 + C04 + C05 + C06): when one of them no longer builds because a
+    # proof obligation of ANOTHER property broke (its own check reports that), this check notes it and goes on with the rest (verifcore/blame.py)
+    "composition_dirs": ["SemaModel/Compose"],
     "harness": "c02",
     "harness_args": {"quick": ["-shards", 48, "-batches", 14, "-searches", 18, "-searchx", 6, "-rank", 200, "-accept", 60, "-acceptbatches", 12],
                      "thorough": ["-shards", 500, "-batches", 22, "-searches", 24, "-searchx", 8, "-rank", 2500, "-accept", 600, "-acceptbatches", 14]},
@@ -62,13 +67,129 @@ SPEC = {
 }
 
 
+# ------------------------------------------------------------------------------------------------------------------
+# Whose disagreement is it?  The compose / rank streams run the COMBINED model (point store + filters + flat + text +
+# answer pipeline); a line of them that differs need not be a statement about filters.  Each differing line (and each
+# oracle failure raised in those streams) is classified by its op kind and by which sub-model produced the difference:
+#   * compose `insert` answered `ok!nodeids` by the model: the ids the shard allocated differ from the model's -> C01
+#   * compose `searchx` (select / sort / offset / limit over a filter query Q): the plain filter request `search Q` is
+#     re-run on the same write history, implementation and model; if both agree the filter part is intact and the
+#     difference lies in select / sort / paging / back-fill (C06) or in the stored document (C01)
+#   * rank `fdump` / `tdump`: the flat bucket is C04's, the text postings are C05's (read through C19's term-key codec)
+#   * rank `searchr`: a tree without a ranking leaf is a pure filter request (stays here); otherwise every filter it
+#     contains (pre-filters and filter leaves) is re-run alone (`searchr <filter>`); if all agree the difference is in
+#     the ranking: C04 (flat leaf), C05 (text leaf), C06 (+ the leaves' indexes) for a composite tree
+# Everything else - schema / lower / update / delete / search / dump lines, a probe that differs or could not be run -
+# stays a disagreement of this check.
+
+def _filter_set(ans):
+    """the answer of a pure filter request as a SET of points (C02's statement is about which points are returned; the order
+    of filter-only points is the node-id order of the back-fill - C06 / C01 - and, in a replay, the real shard may hand out
+    other node ids than the recorded ones the model is given: Go map order of a delete's free list)"""
+    a = ans.strip()
+    for pre in ("u=", "ids:"):
+        if a.startswith(pre):
+            return pre + ",".join(sorted(x for x in a[len(pre):].split(",") if x))
+    return ans
+
+
+def _probes_agree(got, probes):
+    return bool(got) and len(got) == len(probes) and all("!!" not in a and _filter_set(a) == _filter_set(b) for _, a, b in got)
+
+
+def _classify_stream(r, ctx, stream, mode, dis, ops):
+    """-> (own, foreign): `dis` are the differing lines of one stream ({"line", "op", "impl", "model"})"""
+    own, foreign, need = [], [], {}
+    for d in dis:
+        op = d["op"]
+        kind = op.split(" ", 1)[0]
+        i = d["line"] - 1
+        if kind == "insert" and d["model"] == "ok!nodeids" and d["impl"] == "ok":
+            foreign.append(dict(d, owners=["C01"], why="the write is accepted by both; the node ids the shard allocated differ from the ones the point-store model allocates"))
+        elif stream == "rank" and kind == "fdump":
+            foreign.append(dict(d, owners=["C04"], why="the content of the flat vector bucket index/vectorFlat/v differs"))
+        elif stream == "rank" and kind == "tdump":
+            foreign.append(dict(d, owners=["C05", "C19"], why="the postings / corpus size of the text bucket index/text/t differ (C05), as read through the term-key codec of text.go (C19)"))
+        elif stream == "compose" and kind == "searchx":
+            q = blame.searchx_query(op)
+            if q is None:
+                own.append(d)
+            else:
+                need[i] = (d, ["search " + " ".join(q)], ["C06", "C01"], "the plain filter request `search Q` on the same history agrees with the model: the difference is in select / sort / offset / limit / back-fill order or in the stored document")
+        elif stream == "rank" and kind == "searchr":
+            t = blame.parse_rq(op.split()[1:])
+            if t is None or t[1] or not blame.rq_rank_kinds(t[0]):
+                own.append(d)   # unparsable, or a pure filter tree: `_and` / `_or` over filters is C02's statement
+                continue
+            fs = blame.rq_filters(t[0])
+            owners = blame.rank_owners(t[0])
+            if not fs:
+                foreign.append(dict(d, owners=owners, why="the request contains no filter at all: the difference is in the ranking (score / distance / order / cut / merge)"))
+            else:
+                need[i] = (d, ["searchr " + " ".join(f) for f in fs], owners, "every filter of the request (pre-filters, filter leaves), re-run alone on the same history, agrees with the model: the difference is in the ranking (score / distance / order / cut / merge)")
+        else:
+            own.append(d)
+    if need:
+        res = blame.probe(r, ctx["hbin"], "C02", mode, ops, {i: v[1] for i, v in need.items()}, os.path.join(ctx["rundir"], "blame"), stream)
+        for i, (d, probes, owners, why) in sorted(need.items()):
+            got = (res or {}).get(i)
+            if _probes_agree(got, probes):
+                foreign.append(dict(d, owners=owners, why=why, probes=[p for p, _, _ in got]))
+            else:
+                if got:
+                    d = dict(d, probes=[{"op": p, "impl": a, "model": b} for p, a, b in got if "!!" in a or _filter_set(a) != _filter_set(b)][:3])
+                own.append(d)
+    return own, foreign
+
+
+def _diff_all(r, ops_path, impl_path, model_path):
+    dis, n = r.diff_lines(ops_path, impl_path, model_path, limit=1 << 30)
+    return dis, n, open(ops_path).read().splitlines()
+
+
+def _classify_oracle(r, ctx, f, lowers):
+    """an oracle failure raised in the compose / rank stream: (owners, why) when its filter part is shown intact"""
+    sig = f.get("signature", "")
+    hist = [l for l in f.get("replay", "").splitlines() if l.strip() and not l.startswith("#")]
+    if not hist:
+        return None
+    req = hist[-1]
+    if sig.startswith("compose:page-order:") and req.startswith("searchx "):
+        q = blame.searchx_query(req)
+        if q is None:
+            return None
+        probes, mode, owners = ["search " + " ".join(q)], "compose", ["C06"]
+        why = "the plain filter request `search Q` on the same history satisfies the filter oracle and agrees with the model: the page / order of the full request is wrong, not the filter"
+        ops = lowers + hist
+    elif sig.startswith("compose-rank:flat-") and req.startswith("searchr "):
+        t = blame.parse_rq(req.split()[1:])
+        if t is None or t[1]:
+            return None
+        fs = blame.rq_filters(t[0])
+        owners, mode = ["C04"], "rank"
+        why = "the flat-search oracle (count / candidates / distance / nearest / hybrid score) fails while the request's pre-filter, re-run alone on the same history, agrees with the model"
+        if not fs:
+            return owners, "the flat-search oracle (count / candidates / distance / nearest / hybrid score) fails on a request without any filter"
+        probes = ["searchr " + " ".join(x) for x in fs]
+        ops = hist
+    else:
+        return None
+    i = len(ops) - 1
+    res = blame.probe(r, ctx["hbin"], "C02", mode, ops, {i: probes}, os.path.join(ctx["rundir"], "blame"), "oracle-" + "".join(c if c.isalnum() else "-" for c in sig)[:60])
+    got = (res or {}).get(i)
+    if _probes_agree(got, probes):
+        return owners, why
+    return None
+
+
 def run(ctx):
     """The standard correspondence (C02 model on ops.txt) and, on the same histories, the correspondence of the
     COMBINED model of SemaModel/Compose (`semadriver C02 compose` on compose/ops.txt: every write, search and
     bucket dump again, node ids allocated by the model, plus the `searchx` full-pipeline requests)."""
     r = ctx["runner"]
     rundir, tier = ctx["rundir"], ctx["tier"]
-    res = {"stats": {}, "disagreements": [], "compared": 0, "broken": []}
+    res = {"stats": {}, "disagreements": [], "compared": 0, "broken": [], "foreign": []}
+    lowers = []
     if not ctx["hok"]:
         return res
     args = [ctx["hbin"], "-seed", str(ctx["seed"]), "-out", rundir] + [str(a) for a in SPEC["harness_args"][tier]]
@@ -107,10 +228,15 @@ def run(ctx):
         if not ok2:
             res["broken"].append(("driver-run", "semadriver C02 compose", err2[-2000:]))
         else:
-            dis, n = r.diff_lines(p("compose", "ops.txt"), p("compose", "impl.txt"), p("compose", "model.txt"))
+            dis, n, cops = _diff_all(r, p("compose", "ops.txt"), p("compose", "impl.txt"), p("compose", "model.txt"))
+            lowers = [l for l in cops if l.startswith("lower ")]
+            dis, foreign = _classify_stream(r, ctx, "compose", "compose", dis, cops)
             for d in dis:
                 d["mode"] = "combined model (semadriver C02 compose); replay the history up to this line"
-            res["disagreements"] += dis
+            for d in foreign:
+                d["stream"] = "compose (semadriver C02 compose)"
+            res["disagreements"] += dis[:20]
+            res["foreign"] += foreign
             res["compared"] += n
             cst = json.load(open(p("compose", "stats.json")))
             stats["compose_op_lines"] = cst.get("evaluations", 0)
@@ -128,10 +254,14 @@ def run(ctx):
         if not ok3:
             res["broken"].append(("driver-run", "semadriver C02 rank", err3[-2000:]))
         else:
-            dis, n = r.diff_lines(p("rank", "ops.txt"), p("rank", "impl.txt"), p("rank", "model.txt"))
+            dis, n, rops = _diff_all(r, p("rank", "ops.txt"), p("rank", "impl.txt"), p("rank", "model.txt"))
+            dis, foreign = _classify_stream(r, ctx, "rank", "rank", dis, rops)
             for d in dis:
                 d["mode"] = "combined model with ranking indexes (semadriver C02 rank); replay the history up to this line"
-            res["disagreements"] += dis
+            for d in foreign:
+                d["stream"] = "rank (semadriver C02 rank)"
+            res["disagreements"] += dis[:20]
+            res["foreign"] += foreign
             res["compared"] += n
             rst = json.load(open(p("rank", "stats.json")))
             stats["rank_op_lines"] = rst.get("evaluations", 0)
@@ -171,6 +301,16 @@ def run(ctx):
                                       " -- expected: " + a.get("expected", "") + " -- observed: " + a.get("observed", "")))
     elif "-accept" in [str(a) for a in SPEC["harness_args"][tier]]:
         res["broken"].append(("harness-run", "c02 -accept", "the harness wrote no accept/ops.txt"))
+    # oracle failures raised in the compose / rank streams (signatures compose:page-order:*, compose-rank:flat-*): the same question
+    if ok2 or ok3:
+        kept = []
+        for f in stats.get("oracle_failures", []) or []:
+            who = _classify_oracle(r, ctx, f, lowers) if str(f.get("signature", "")).startswith("compose") else None
+            if who:
+                res["foreign"].append({"oracle": f["signature"], "what": f.get("what", ""), "owners": who[0], "why": who[1], "replay": f.get("replay", ""), "stream": "oracle of the compose / rank stream"})
+            else:
+                kept.append(f)
+        stats["oracle_failures"] = kept
     res["stats"] = stats
     return res
 
